@@ -57,7 +57,8 @@ def expect_ok(thunk, cell, what):
 
 # -- (i) attribute matrix ------------------------------------------------------------------------
 
-def fresh():
+def fresh(used=False):
+    """`used`: everything is rendered once while the model is still consistent (nothing concluded then may survive the edit)"""
     from pydbml import Database
     from pydbml.classes import Column, Enum, EnumItem, Index, Table
     db = Database()
@@ -70,7 +71,14 @@ def fresh():
     t.add_index(ix)
     db.add(e)
     db.add(t)
+    if used:
+        from ..lib import render_everything
+        render_everything(db)
     return db, t, c1, c2, e, ix
+
+
+def _hist(h):
+    return h.endswith('+used'), h.replace('+used', '')
 
 
 def matrix_cells():
@@ -78,8 +86,10 @@ def matrix_cells():
     from pydbml.classes import Column, Enum, EnumItem, Index, Table
 
     def table_name(history):
+        used, history = _hist(history)
+
         def b():
-            db, t, c1, c2, e, ix = fresh()
+            db, t, c1, c2, e, ix = fresh(used)
             if history == 'constructed':
                 t2 = Table(None, schema='s2')
                 t2.add_column(Column('x', 'int'))
@@ -90,8 +100,10 @@ def matrix_cells():
         return b
 
     def column_attr(attr, history):
+        used, history = _hist(history)
+
         def b():
-            db, t, c1, c2, e, ix = fresh()
+            db, t, c1, c2, e, ix = fresh(used)
             if history == 'constructed':
                 c = Column(None, 'int') if attr == 'name' else Column('n', None)
                 t.add_column(c)
@@ -107,8 +119,10 @@ def matrix_cells():
         return b
 
     def enum_attr(attr, history):
+        used, history = _hist(history)
+
         def b():
-            db, t, c1, c2, e, ix = fresh()
+            db, t, c1, c2, e, ix = fresh(used)
             if history == 'constructed':
                 e2 = Enum(None, ['a']) if attr == 'name' else Enum('e2', ['a'], schema=None)
                 db.add(e2)
@@ -122,8 +136,10 @@ def matrix_cells():
         return b
 
     def item_name(history):
+        used, history = _hist(history)
+
         def b():
-            db, t, c1, c2, e, ix = fresh()
+            db, t, c1, c2, e, ix = fresh(used)
             if history == 'constructed':
                 it = EnumItem(None)
                 e.add_item(it)
@@ -135,8 +151,10 @@ def matrix_cells():
         return b
 
     def index_table(history):
+        used, history = _hist(history)
+
         def b():
-            db, t, c1, c2, e, ix = fresh()
+            db, t, c1, c2, e, ix = fresh(used)
             if history == 'constructed':
                 i2 = Index([c1], unique=True)
             elif history == 'detached':
@@ -149,16 +167,16 @@ def matrix_cells():
             return out
         return b
 
-    for h in ('constructed', 'cleared'):
+    for h in ('constructed', 'cleared', 'cleared+used'):
         yield f'table.name/{h}', table_name(h)
         yield f'item.name/{h}', item_name(h)
     for attr in ('name', 'type'):
-        for h in ('constructed', 'cleared', 'detached'):
+        for h in ('constructed', 'cleared', 'detached', 'cleared+used', 'detached+used'):
             yield f'column.{attr}/{h}', column_attr(attr, h)
     for attr in ('name', 'schema'):
-        for h in ('constructed', 'cleared', 'detached'):
+        for h in ('constructed', 'cleared', 'detached', 'cleared+used', 'detached+used'):
             yield f'enum.{attr}/{h}', enum_attr(attr, h)
-    for h in ('constructed', 'detached', 'detached-by-position'):
+    for h in ('constructed', 'detached', 'detached-by-position', 'detached+used', 'detached-by-position+used'):
         yield f'index.table/{h}', index_table(h)
 
     def control():
@@ -190,12 +208,12 @@ def ref_cells():
     from pydbml.classes import Column, Reference
     for kind, arity, inline, fault, history in itertools.product(['>', '<', '-', '<>'], [1, 2], [False, True],
                                                                    ['detached1', 'detached2', 'mixed1', 'mixed2', 'mixed1s', 'mixed2s', 'inline_composite', 'none'],
-                                                                   ['constructed', 'edited']):
+                                                                   ['constructed', 'edited', 'used', 'spliced']):
         if fault == 'inline_composite' and not (inline and arity == 2 and kind != '<>'):
             continue
         if fault.startswith('mixed') and arity == 1:
             continue
-        if fault == 'inline_composite' and history == 'edited':
+        if fault == 'inline_composite' and history != 'constructed':
             continue
         cell = f'ref/{kind}/{arity}/{"inline" if inline else "standalone"}/{fault}/{history}'
 
@@ -217,7 +235,25 @@ def ref_cells():
                     col2 = [bb.columns[0], (b_other if same else c).columns[1]]
             r = Reference(kind, col1, col2, inline=inline, name='r1')
             db.add(r)
-            if history == 'edited':
+            if history in ('used', 'spliced'):
+                # the consistent reference is used first (whatever was concluded about it then must not survive the edit)
+                for thunk in (lambda: r.table1, lambda: r.table2, lambda: r.sql, lambda: r.dbml, lambda: db.sql, lambda: db.dbml,
+                              lambda: a.get_refs(), lambda: bb.get_refs()):
+                    try:
+                        thunk()
+                    except Exception:  # noqa
+                        pass
+            if history == 'spliced':
+                # the column lists are edited in place (no attribute of the reference is assigned)
+                if fault == 'detached1':
+                    r.col1[0] = loose
+                elif fault == 'detached2':
+                    r.col2[-1] = loose
+                elif fault == 'mixed1':
+                    r.col1[-1] = (a_s1 if same else c).columns[1]
+                elif fault == 'mixed2':
+                    r.col2[-1] = (b_other if same else c).columns[1]
+            if history in ('edited', 'used'):
                 if fault == 'detached1':
                     a.delete_column(r.col1[0])
                 elif fault == 'detached2':
@@ -331,6 +367,15 @@ def eval_sampled(c, ctx: Ctx = None):
     cell = f'sampled/{how}'
     case = dict(cell=cell, schema=model.to_json(s), pick=pick, how=how)
     viols = []
+    if pick % 2:
+        # use everything while the model is still consistent
+        from ..lib import render_everything
+        try:
+            render_everything(db)
+            [(x.table1, x.table2) for x in db.refs]
+            [t.get_refs() for t in db.tables]
+        except Exception:  # noqa
+            pass
 
     def V(vs):
         for v in vs:
